@@ -2229,7 +2229,13 @@ class SQLModel:
                 sub_near = sub_container.near_sql
                 sub_suffix = getattr(sub_near, "suffix", None)
                 if (
-                    isinstance(sub_near, data_algebra.near_sql.NearSQLUnaryStep)
+                    isinstance(
+                        sub_near,
+                        (
+                            data_algebra.near_sql.NearSQLUnaryStep,
+                            data_algebra.near_sql.NearSQLRawQStep,
+                        ),
+                    )
                     and (sub_suffix is not None)
                     and (len(sub_suffix) > 0)
                 ):
